@@ -259,9 +259,9 @@ LEAVES_FULL = [
     ["complex", "0.0", "1.0"], ["complex", "nan", "inf"], ["complex", "-inf", "nan"], ["complex", "1.0", "-2.0"],
     ["complex", "0.0", "-0.0"], ["complex", "-0.0", "-0.0"], ["complex", "-0.0", "0.0"], ["complex", "-0.0", "1.5"],
     ["complex", "1e+22", "1e-07"],
-    ["str", ""], ["str", 'a"b'], ["str", "a'b\\"], ["str", "\x00\x1f\x7f\n\r\t\xe9 \U0001d538\ud800"], ["str", 'ub"\''],
+    ["str", ""], ["str", 'a"b'], ["str", "a'b\\"], ["str", "\x00\x1f\x7f\n\r\t\xe9 \U0001d538\ud800"], ["str", 'ub"\''], ["str", "it\\'s"], ["str", "\\\\'\""], ["str", "\\"],
     ["str", "{x} #[[ ]] ;"],
-    ["bytes", ""], ["bytes", "a\"'\\\xff\x00\n"], ["bytes", "'"],
+    ["bytes", ""], ["bytes", "a\"'\\\xff\x00\n"], ["bytes", "'"], ["bytes", "it\\'s"], ["bytearray", "\\'"],
     ["bytearray", ""], ["bytearray", "\xff\"'"],
     ["kw", "kw"], ["kw", ""],
     ["fraction", "0", "1"], ["fraction", "-1", "3"], ["fraction", str(10 ** 30), "7"],
